@@ -69,6 +69,8 @@ var c09Micro = []string{
 	"a = f(<<EOT\nx\nEOT\n)\n", "a = [<<EOT\nx\nEOT\n, 1]\n", "b \"l\" { a = 1 }\n", "b {}\n", "b { }\n", "b l {\n}\n", "b \"l\" \"m\" {\n a = 1\n}\n", "a=1\nbb=2\nccc = 3\n", "a = 1 == 1\n", "a = 1 != 1\n",
 	"a = 1 <= 2 && 2 >= 1 || !false\n", "a = x % y\n", "a = x %{a=1}.a\n", "a = 1e5 + 1.5e-3\n", "a = null\n", "a = x == null ? 1 : 0\n", "a = ns::f(1)\n", "a = x[\"k\"]\n", "a = x[y.z]\n", "a = x [y]\n",
 	"a = [1,2,]\n", "a = {\n  b = 1\n  c = 2,\n}\n", "a = ( x )\n", "a = -x.y[0]\n", "a = !x.y\n", "a = x.y.z\n", "a = x[0][1]\n", "a = \"$${x} %%{y} $ % $$ %%\"\n", "a = \"\\\"q\\\" \\\\ \\n\"\n",
+	"a = foo.0 .1 # c\n", "a = foo.0 .1 // c\n", "a = foo.0 .1", "a = foo.0 .1 .2 # c\n", "a = foo.0 .1 .2", "a = foo. /* c */ 0 .1\n", "a = foo .0 /* c */ .1 .2\n", "a = foo.0 .1 /* c */\n",
+	"a = [foo.0 .1, 2]\n", "b { a = foo.0 .1 }\n", "a = foo[0 /* first */]\n", "a = foo[0\n]\n", "a = foo[ /* k */ \"k\" /* after */ ]\n", "a = \"${foo[0 /* c */]}\"\n", "a = x. /* c */ y\n", "a = x /* c */ [0]\n",
 	"a = 1\n\n\n\nb = 2\n", "# lead\na = 1\n", "/* lead */ a = 1\n", "a = 1 /* trail */\n", "b { # c\n}\n", "b {\n # only comment\n}\n", "a = x /*c*/ . /*d*/ y\n", "a = x.0 + y.0\n", "a = x.0[1]\n",
 }
 
@@ -88,6 +90,12 @@ func c09Source(c *core.Case) ([]byte, *gen.Scope) {
 			src = strings.ReplaceAll(src, "\n", "\r\n")
 		}
 		c.Count("source:micro")
+		if gen.Chance(r, 0.4) {
+			if rs, ok := respace(r, []byte(src), gen.Chance(r, 0.25)); ok {
+				c.Count("source:micro+respaced")
+				return rs, sc
+			}
+		}
 		return []byte(src), sc
 	}
 	body, sc := exprConfig(r, 3, 2, 0.1)
@@ -97,7 +105,14 @@ func c09Source(c *core.Case) ([]byte, *gen.Scope) {
 		fl.Gap = 0.6
 	}
 	c.Count("source:generated")
-	return []byte(gen.RenderNative(body, fl)), sc
+	src := []byte(gen.RenderNative(body, fl))
+	if gen.Chance(r, 0.4) {
+		if rs, ok := respace(r, src, gen.Chance(r, 0.2)); ok {
+			c.Count("source:generated+respaced")
+			return rs, sc
+		}
+	}
+	return src, sc
 }
 
 var c09Other = []byte("other   =   [ 1,2 ,3 ]   # an unrelated configuration\nblock   \"l\"   {\n a=1\n}\n")
